@@ -46,6 +46,12 @@ Definition skel_expected (f : Z) : option (list (Z * Z)) :=
   | 11 => Some [(10, 4); (12, 0); (19, 29); (13, 0); (10, 4); (12, 0); (19, 29); (13, 0); (20, 0); (10, 4); (12, 0); (19, 28); (13, 0); (13, 0); (19, 32)]
   (* DefExecutor.Init: initWg.Add, watchInitQueue; workerWg.Add, subWorkerQueue for every worker *)
   | 12 => Some [(10, 7); (12, 0); (19, 30); (13, 0); (20, 0); (10, 4); (12, 0); (19, 31); (13, 0); (13, 0)]
+  (* ShareData.Set (pkg/entity/dag.go; object 9 = mutex, call 40 = Save): Lock, deferred Unlock, then - under the mutex -
+      the save of the whole dictionary (the rollback in its error branch has no synchronisation): the transition system
+      ShareDataConc with [locked_save = true] *)
+  | 13 => Some [(1, 9); (5, 0); (2, 9); (21, 0); (19, 40); (13, 0)]
+  (* ShareData.Get: (an early return before anything is touched); Lock, deferred Unlock; return *)
+  | 14 => Some [(21, 0); (18, 0); (13, 0); (1, 9); (5, 0); (2, 9); (18, 0)]
   | _ => None
   end.
 
